@@ -40,7 +40,7 @@ def agg_keys(level, district_office):
 # ballast
 
 
-def ballast(seed, n_rep=26, n_non=3, district_gut=False):
+def ballast(seed, n_rep=26, n_non=3, district_gut=False, high_pev=False):
     rng = np.random.default_rng(seed)
     rows, feed = [], []
     for i in range(n_rep + n_non):
@@ -69,7 +69,7 @@ def ballast(seed, n_rep=26, n_non=3, district_gut=False):
         dem = int(round(t * share))
         pev = 100
         if i >= n_rep:
-            pev = int(rng.integers(10, THR))
+            pev = int(rng.integers(60 if high_pev else 10, THR))
             t = int(t * pev / 100)
             dem = int(dem * pev / 100)
         feed.append(
@@ -105,11 +105,11 @@ def unit_id(p, i, u, district_gut):
 TF_VARIANTS = [Fraction(1, 2), Fraction(2), Fraction(1, 4), Fraction(4)]  # = lo, = hi, < lo, > hi
 
 
-def materialise(pack, seed, vote_scale=3, exact_boundaries=True, ballast_rep=26, ballast_non=3, shuffle=True):
+def materialise(pack, seed, vote_scale=3, exact_boundaries=True, ballast_rep=26, ballast_non=3, shuffle=True, high_pev=False):
     """pack: list of abstract scenarios sharing policy, districtOffice, levels.  Returns pre, cur, meta."""
     sc0 = pack[0]
     district_gut = sc0["districtGut"]
-    brow, frow = ballast(seed, n_rep=ballast_rep, n_non=ballast_non, district_gut=district_gut)
+    brow, frow = ballast(seed, n_rep=ballast_rep, n_non=ballast_non, district_gut=district_gut, high_pev=high_pev)
     meta = {"units": {}, "states": {}, "blocklist": [], "unit_blocklist": [], "ballast_rep": ballast_rep}
     for p, sc in enumerate(pack):
         assert (sc["policy"], sc["districtOffice"], list(sc["levels"])) == (
@@ -126,16 +126,19 @@ def materialise(pack, seed, vote_scale=3, exact_boundaries=True, ballast_rep=26,
             v = int(u["votes"])
             # feed numbers: turnout = 3v (dem 2v, gop v) so that margin = v and two-party weights = turnout
             t, dem, gop = vote_scale * v, 2 * v, v
+            # the baseline is derived from "base_votes" when present (C10 perturbs the feed count only)
+            vb = int(u.get("base_votes", v))
+            tb = vote_scale * vb
             if u["inBase"]:
                 if u["zeroBase"]:
                     bt = 0
-                elif u["tfStrange"] and v > 0:
+                elif u["tfStrange"] and vb > 0:
                     f = TF_VARIANTS[(i + p) % 4] if exact_boundaries else TF_VARIANTS[2 + (i + p) % 2]
-                    bt = int(Fraction(t) / f)
-                    assert Fraction(t, bt) == f
-                elif v > 0:
+                    bt = int(Fraction(tb) / f)
+                    assert Fraction(tb, bt) == f
+                elif vb > 0:
                     # a modelled unit: factor strictly inside (0.5, 2); vary it a little
-                    bt = [t, t + t // 4, t - t // 4][(i + p) % 3]
+                    bt = [tb, tb + tb // 4, tb - tb // 4][(i + p) % 3]
                 else:
                     bt = vote_scale * 4 ** i
                 bd = bt // 2 + (i % 3 if bt > 4 else 0)
@@ -158,8 +161,8 @@ def materialise(pack, seed, vote_scale=3, exact_boundaries=True, ballast_rep=26,
                 if u["rep"]:
                     pev = THR if (i + p) % 2 == 0 else 100
                 else:
-                    pev = THR - 1 if (i + p) % 2 == 0 else 40
-                    if exact_boundaries and (i + p) % 5 == 0:
+                    pev = THR - 1 if (i + p) % 2 == 0 else (70 if high_pev else 40)
+                    if exact_boundaries and (i + p) % 5 == 0 and not high_pev:
                         pev = 0
                 frow.append(
                     dict(
@@ -208,9 +211,9 @@ class OutlierRecorder:
         self.cls._fit_outlier_detection_model = self.orig
 
 
-def run_pack(pack, estimator, seed, pis=(0.7, 0.9), extra_mp=None, client=None, ballast_rep=26, ballast_non=3, shuffle=True, **kw):
+def run_pack(pack, estimator, seed, pis=(0.7, 0.9), extra_mp=None, client=None, ballast_rep=26, ballast_non=3, shuffle=True, high_pev=False, **kw):
     sc0 = pack[0]
-    pre, cur, meta = materialise(pack, seed, ballast_rep=ballast_rep, ballast_non=ballast_non, shuffle=shuffle)
+    pre, cur, meta = materialise(pack, seed, ballast_rep=ballast_rep, ballast_non=ballast_non, shuffle=shuffle, high_pev=high_pev)
     setup = EST_SETUP[estimator]
     office = "H" if sc0["districtOffice"] else "G"
     gut = "precinct-district" if sc0["districtGut"] else "precinct"
@@ -564,4 +567,44 @@ def states_with_units(sc):
             out.add(u["bstate"])
         elif u["inFeed"]:
             out.add(u["fstate"])
+    return out
+
+
+PERTURBABLE = ("part", "none0", "blkRep", "blkNon", "blkZero", "zeroRep", "zeroNon", "unexpRep", "unexpNon")
+
+
+def perturb_traces(pack0, estimator, seed, pis, rnd, **kw):
+    """C10: the same election twice; in the second run the counted votes of ONE outstanding / excluded unit per
+    packed scenario are different (its percent expected vote, baseline and features are not)."""
+    pack1, chosen = [], []
+    for sc in pack0:
+        cand = [i for i, u in enumerate(sc["units"]) if u["kind"] in PERTURBABLE]
+        if not cand:
+            pack1.append(sc)
+            chosen.append(None)
+            continue
+        i = rnd.choice(cand)
+        u = dict(sc["units"][i])
+        old = int(u["votes"])
+        u["base_votes"] = old
+        new = old + 4 if rnd.random() < 0.5 else (old + 1) * 12
+        if u["kind"] == "none0" or rnd.random() < 0.15:
+            new = rnd.choice([0, 8, 400]) if old != 0 else rnd.choice([8, 400])
+        u["votes"] = new
+        sc1 = dict(sc)
+        sc1["units"] = list(sc["units"])
+        sc1["units"][i] = u
+        pack1.append(sc1)
+        chosen.append((i + 1, old, new))
+    c0, res0, meta0, _ = run_pack(pack0, estimator, seed, pis=pis, shuffle=False, **kw)
+    c1, res1, meta1, _ = run_pack(pack1, estimator, seed, pis=pis, shuffle=False, **kw)
+    t0 = trace_of(pack0, res0, meta0, estimator, pis)
+    t1 = trace_of(pack1, res1, meta1, estimator, pis)
+    out = []
+    for a, b, ch in zip(t0, t1, chosen):
+        if ch is None:
+            continue
+        scale = 1 if EST_SETUP[estimator]["estimands"][0] == "margin" else 3
+        out.append({"kind": "pair", "sc": a["sc"], "u": ch[0], "delta": (ch[2] - ch[1]) * scale, "obs0": a["obs"], "obs1": b["obs"],
+                    "unit_kind": a["sc"]["units"][ch[0] - 1]["kind"]})
     return out
